@@ -409,13 +409,9 @@ theorem parse11_body (t : Tab11 α ν) (h : Hdr11 ν) (hNe : h.nNe = t.ne.length
   rw [loop11_dataLines, loop11_blocks neg t h hNe hTe]
   rfl
 
-/-- **ADF11 round trip** (resolved and unresolved files, any grid sizes ≥ 1, any number ≥ 1 of charge-state blocks, both
-terminator styles): the parser returns, for every `Z1` block, the density vector, the temperature vector and
-`rates[i_ne][i_te]`.  For an *unresolved* file this holds only if the file's fourth line passes the resolved-file probe
-`\s*[0-9]+` — i.e. does not start with a minus sign (see `adf11_unresolved_misdetected`); hence `_partial`.
-Once the probe accepts a sign (`Gen.AdfLex.probeAcceptsMinus`, read off the source), `probe_after_fix` discharges the
-hypothesis for every file. -/
-theorem adf11_roundtrip_partial (t : Tab11 α ν) (hne : t.ne ≠ []) (hte : t.te ≠ []) (hb : t.blocks ≠ [])
+/-- ADF11 round trip under the explicit hypothesis that the fourth line of an unresolved file passes the resolved-file
+probe (the form that held before the fix of the probe; `adf11_roundtrip` below discharges the hypothesis). -/
+theorem adf11_roundtrip_of_probe (t : Tab11 α ν) (hne : t.ne ≠ []) (hte : t.te ≠ []) (hb : t.blocks ≠ [])
     (hprobe : t.resolved = none → (lexK11 (ν := ν) neg).digit0 (.nums (probeLine t)) = true) :
     parse11 (lexK11 neg) t.z t.name (render11 t) = .ok (dictOfList (t.blocks.map (expectedBlk11 t))) := by
   obtain ⟨b, bs, hbs⟩ : ∃ b bs, t.blocks = b :: bs := by
@@ -455,6 +451,37 @@ theorem probe_after_fix (hfix : Cherab.Gen.AdfLex.probeAcceptsMinus = true) (x :
     (lexK11 (ν := ν) neg).digit0 (.nums (x :: xs)) = true := by
   simp [lexK11, hfix]
 
+/-- the probe of the current source accepts a leading minus sign: read off /repo by the translator on every run.
+Reverting the fix of `parse/adf11.py` regenerates `probeAcceptsMinus := false` and this no longer builds. -/
+theorem probe_fixed : Cherab.Gen.AdfLex.probeAcceptsMinus = true := by decide
+
+theorem probeLine_ne (t : Tab11 α ν) (hne : t.ne ≠ []) (hte : t.te ≠ []) : probeLine t ≠ [] := by
+  unfold probeLine
+  by_cases h8 : 8 < t.ne.length
+  · simp only [h8, if_true]
+    intro h0
+    have : ((t.ne.drop 8).take 8).length = 0 := by rw [h0]; rfl
+    simp only [List.length_take, List.length_drop] at this; omega
+  · simp only [h8, if_false]
+    intro h0
+    have : (t.te.take 8).length = 0 := by rw [h0]; rfl
+    have := List.length_pos_iff.mpr hte
+    simp only [List.length_take] at *; omega
+
+/-- **ADF11 round trip** (resolved and unresolved files, any grid sizes ≥ 1, any number ≥ 1 of charge-state blocks, both
+terminator styles, any sign of any value): the parser returns, for every `Z1` block, the density vector, the
+temperature vector and `rates[i_ne][i_te]`.  Proved through the generated flag `probe_fixed`. -/
+theorem adf11_roundtrip (t : Tab11 α ν) (hne : t.ne ≠ []) (hte : t.te ≠ []) (hb : t.blocks ≠ []) :
+    parse11 (lexK11 neg) t.z t.name (render11 t) = .ok (dictOfList (t.blocks.map (expectedBlk11 t))) := by
+  apply adf11_roundtrip_of_probe neg t hne hte hb
+  intro _
+  obtain ⟨x, xs, hx⟩ : ∃ x xs, probeLine t = x :: xs := by
+    cases h : probeLine t with
+    | nil => exact absurd h (probeLine_ne t hne hte)
+    | cons x xs => exact ⟨x, xs, rfl⟩
+  rw [hx]
+  exact probe_after_fix neg probe_fixed x xs
+
 /-- element-header check: a file whose header names another element (atomic number or name) is rejected -/
 theorem wrong_element_rejected (t : Tab11 α ν) (elemZ : Nat) (elemName : ν) (h : elemZ ≠ t.z ∨ elemName ≠ t.name) :
     parse11 (lexK11 neg) elemZ elemName (render11 t) = .error .value := by
@@ -467,8 +494,7 @@ theorem wrong_element_rejected (t : Tab11 α ν) (elemZ : Nat) (elemName : ν) (
   · simp [h]
 
 /-- … and the matching header is necessary and sufficient for getting past the check -/
-theorem element_check_iff (t : Tab11 α ν) (elemZ : Nat) (elemName : ν) (hne : t.ne ≠ []) (hte : t.te ≠ []) (hb : t.blocks ≠ [])
-    (hprobe : t.resolved = none → (lexK11 (ν := ν) neg).digit0 (.nums (probeLine t)) = true) :
+theorem element_check_iff (t : Tab11 α ν) (elemZ : Nat) (elemName : ν) (hne : t.ne ≠ []) (hte : t.te ≠ []) (hb : t.blocks ≠ []) :
     (∃ r, parse11 (lexK11 neg) elemZ elemName (render11 t) = .ok r) ↔ (elemZ = t.z ∧ elemName = t.name) := by
   constructor
   · rintro ⟨r, hr⟩
@@ -480,7 +506,7 @@ theorem element_check_iff (t : Tab11 α ν) (elemZ : Nat) (elemName : ν) (hne :
     rw [wrong_element_rejected neg t elemZ elemName this] at hr
     cases hr
   · rintro ⟨rfl, rfl⟩
-    exact ⟨_, adf11_roundtrip_partial neg t hne hte hb hprobe⟩
+    exact ⟨_, adf11_roundtrip neg t hne hte hb⟩
 
 end adf11
 
@@ -581,13 +607,12 @@ theorem charge_convention (c : Class11) (rates : List (Nat × Block11 α)) (h : 
 /-- **ADF11 as installed** (`install_adf11*` = `parse_adf11` then `_notation_adf11_adas2cherab`): for a file with pairwise
 distinct `Z1`, every block arrives under charge `Z1 + correction` with the file's density vector, temperature vector and
 `rate[i_ne][i_te]` table (to be read with the conversions `convs11installed`: 10^x·10⁶, 10^x, 10^x·10⁻⁶). -/
-theorem adf11_installed_partial {ν : Type} [DecidableEq ν] (neg : α → Bool) (c : Class11) (t : Tab11 α ν)
-    (hne : t.ne ≠ []) (hte : t.te ≠ []) (hb : t.blocks ≠ []) (hnd : (t.blocks.map (·.z1)).Nodup)
-    (hprobe : t.resolved = none → (lexK11 (ν := ν) neg).digit0 (.nums (probeLine t)) = true) :
+theorem adf11_installed {ν : Type} [DecidableEq ν] (neg : α → Bool) (c : Class11) (t : Tab11 α ν)
+    (hne : t.ne ≠ []) (hte : t.te ≠ []) (hb : t.blocks ≠ []) (hnd : (t.blocks.map (·.z1)).Nodup) :
     (parse11 (lexK11 neg) t.z t.name (render11 t)).map (notation11 c)
       = .ok (t.blocks.map fun b => ((b.z1 : Int) + c.chargeCorrection,
               { ne := t.ne, te := t.te, rates := tabulate t.ne.length t.te.length b.rate })) := by
-  rw [adf11_roundtrip_partial neg t hne hte hb hprobe]
+  rw [adf11_roundtrip neg t hne hte hb]
   have hk : (t.blocks.map (expectedBlk11 t)).map (·.1) = t.blocks.map (·.z1) := by rw [List.map_map]; rfl
   rw [dictOfList_nodup _ (by rw [hk]; exact hnd)]
   simp only [Except.map]
@@ -857,7 +882,7 @@ theorem norm_pinned (k : Kind2x) :
       = some (match k.norm with | .cm3 => "Cm3ToM3.conversion_factor" | _ => "1") := by
   cases k <;> decide
 
-/-! ### the resolved-file probe: concrete witness of the mis-detection -/
+/-! ### the resolved-file probe: the former counter-example -/
 
 def negI (x : Int) : Bool := decide (x < 0)
 
@@ -873,14 +898,19 @@ def witness11 : Tab11 Int Nat where
   blocks := [{ z1 := 1, rate := fun _ _ => -10 }]
   altEnd := false
 
-/-- **Defect (as the code is today)**: an unresolved ADF11 file whose fourth line starts with a minus sign (≤ 8
-densities and a first temperature below 1 eV) is taken for a *resolved* file; two data lines are skipped and the parser
-returns empty density and temperature vectors next to the correct rate table — silently, no exception.
-The hypothesis `probeAcceptsMinus = false` is what the translator reads off the source today; after the fix this
-theorem is vacuous and `probe_after_fix` makes `adf11_roundtrip_partial` unconditional. -/
+/-- Conditional lemma about the *pre-fix* probe `\\s*[0-9]+` (fixed in /repo 0745ea0): whenever the generated table says
+that the probe rejects a leading minus sign, this unresolved file (≤ 8 densities, first temperature below 1 eV) is taken
+for a resolved one and the parser silently returns empty density and temperature vectors.  Vacuous on the fixed tree;
+it becomes the live witness again if the fix is reverted (then `probe_fixed` stops building and the corpus case
+re-finds `C08:adf11:unresolved-file-4th-line-negative-read-as-resolved`).  Not in the audited set. -/
 theorem adf11_unresolved_misdetected : Cherab.Gen.AdfLex.probeAcceptsMinus = false →
     parse11 (lexK11 negI) 6 0 (render11 witness11) = .ok [(1, { ne := [], te := [], rates := [[-10]] })]
     ∧ parse11 (lexK11 negI) 6 0 (render11 witness11) ≠ .ok (dictOfList (witness11.blocks.map (expectedBlk11 witness11))) := by
+  decide
+
+/-- the former counter-example is now read correctly (by evaluation of the model with the generated flag) -/
+theorem adf11_former_witness_roundtrip :
+    parse11 (lexK11 negI) 6 0 (render11 witness11) = .ok [(1, { ne := [7], te := [-1], rates := [[-10]] })] := by
   decide
 
 /-- non-vacuity of the round trip: an unresolved 2×2 file with non-negative fourth line satisfies all hypotheses -/
